@@ -367,6 +367,9 @@ func (m *Mux) RegisterConn(ctx context.Context, cc *grpc.ClientConn) error {
 	s := m.loadState().clone()
 
 	if err := s.addConnHandler(m.opts, cc, stream); err != nil {
+		// The exchange is over: do not leave the reflection stream open on
+		// the connection for as long as ctx lives.
+		stream.CloseSend()
 		return err
 	}
 
